@@ -180,6 +180,19 @@ CLAIMED = {
    technique="ghost-state contract on the real randn; syntactic effect analysis of the live source; proxy execution of the real Hutchinson loop body in an "
              "index-function domain with an expectation operator; z3/cvc5",
    engine="FRAME+IDX"),
+ "C10": dict(
+   category="proof",
+   text="Every eig rule the property names (Identity, Diagonal, Triangular lower/upper, dense Eig and Eigh, Arnoldi, Lanczos, PowerIteration) runs as real code "
+        "in the index domain for symbolic n and 1 <= k <= n, both selections and both dtype classes, over a ghost enumeration of the spectrum (entrywise for "
+        "structural rules, where the eigen-equation is proved; by dependency contract for xnp.eig/eigh; by callee contract for the Krylov drivers): k values and "
+        "an n x k operator; value i and vector i are the same member; members distinct and in range; every member not returned has magnitude <= (LM) / >= (SM) "
+        "every returned one; the dense routine is applied to the matrix of A; get_slice for all k, n; eigmax/eigmin forwarding; the Auto rule's choice is valid.",
+   design_ref="4.10",
+   note="Convergence of Lanczos/Arnoldi/power iteration is a callee contract here (C14/C15 decide the decompositions); compute_lower_triangular_eigvecs is covered by a "
+        "bounded stand-in (n<=6), not proved; complex entries are opaque values with conjugation and magnitude as uninterpreted functions; LOBPCG is not among the "
+        "algorithms the property names and is left out; ties in magnitude are resolved arbitrarily.",
+   technique="proxy execution of the real eig rules in an index-function domain with ghost spectrum enumeration and argsort/eig/eigh dependency contracts; z3/cvc5",
+   engine="IDX"),
 }
 
 NOT_YET = "check not built yet in this session (framework under construction; see DESIGN.md section 10 for the order of work)"
